@@ -336,12 +336,10 @@ theorem swapElems_err_second (m : Matrix α) (x : Nat) (e : Error) :
     m.swapElems (.ok (.ok x)) (.ok (.error e)) = .ok (.error e, m) := by
   simp [Matrix.swapElems, bind, Except.bind, pure, Except.pure]
 
-/-- Tie T1 (re-extracted from src/swap.rs on every run): `swap_rows` exchanges major-axis vectors of
-a row-major and minor-axis vectors of a column-major matrix, `swap_cols` the other way round -/
-theorem swap_dispatch_duality :
-    (Gen.orderDispatch.filter (·.1 == "swap.rs")).map (fun r => (r.2.1, r.2.2.1, r.2.2.2.1, r.2.2.2.2)) =
-      [("swap_rows", "major", "minor", "self.swap_{axis}_axis_vectors(m, n)"),
-       ("swap_cols", "minor", "major", "self.swap_{axis}_axis_vectors(m, n)")] := by decide
+/- The table theorem `swap_dispatch_duality` (T1: which axis `swap_rows` / `swap_cols` use per order, read by a regular
+expression) was retired in the fourth session: `BridgeT11.swap_rows_bridge` / `swap_cols_bridge` prove the regenerated
+dispatch equal to the model's, which is strictly stronger, and the table alarmed on harmless rewrites (`let order =
+self.order; match order`). -/
 
 /-! ### non-vacuity -/
 
